@@ -414,6 +414,28 @@ def initiator_cases():
                 if len(retry2) != 1 or retry2[0].data != want2:
                     v.append(('second-challenge:retry-differs', 'after a second, different COOKIE challenge the initiator does not '
                               'send the original request with the NEW cookie placed first'))
+            if mode == 'invalid-ke-after-cookie' and retry:
+                # the retry (with the cookie) is answered INVALID_KE_PAYLOAD: the request with the other group still carries
+                # the cookie, first - the responder is as loaded as before
+                w.step(('deliver', retry[0].id))
+                ans = [d for d in w.step_emitted if d.sender == 'B']
+                notes = []
+                if len(ans) == 1:
+                    try:
+                        notes = [struct.unpack('>H', b[2:4])[0] for t, b in F.split_chain(ans[0].data[16], ans[0].data[28:]) if t == F.NOTIFY]
+                    except ValueError:
+                        pass
+                if notes != [17]:
+                    raise HarnessError('expected INVALID_KE_PAYLOAD as the answer to the retry, got notifications %r' % (notes,))
+                w.step(('deliver', ans[0].id))
+                third = [d for d in w.step_emitted if d.sender == 'A']
+                if len(third) != 1:
+                    v.append(('invalid-ke-after-cookie:no-retry', 'initiator sent %d datagrams after INVALID_KE_PAYLOAD' % len(third)))
+                else:
+                    pl3 = F.split_chain(third[0].data[16], third[0].data[28:])
+                    if not pl3 or pl3[0][0] != F.NOTIFY or struct.unpack('>H', pl3[0][1][2:4])[0] != COOKIE or pl3[0][1][4:] != cookie:
+                        v.append(('invalid-ke-after-cookie:cookie-dropped', 'the request that follows INVALID_KE_PAYLOAD does not carry '
+                                  'the cookie received before as its first payload (payload types %s)' % [t for t, _ in pl3]))
             if mode.startswith('retry-') and retry:
                 # the retry (or the answer to it) is lost: what the retransmission timer sends is the request in use,
                 # i.e. the one with the cookie, whether or not the responder is still under load by then
@@ -488,6 +510,48 @@ def foreign_responder_cases():
             yield ('initiator:foreign-responder:spir-%s:cookie-%d' % (spir, n), v, 'completed' if not v else 'failed')
 
 
+def same_pass_cases(measured):
+    """several IKE_SA_INIT requests become readable in ONE pass of the event loop (the responder listens on two addresses,
+    a request arrives on each; or two sockets of different families): the half-open IKE_SAs are counted for each of them, so
+    with one short of the load at which cookies start only the first is answered in full"""
+    B2 = '192.168.0.12'
+    c = S.base_confs(b_over={'dh': ['19', '20']})
+    c['B']['conn_b2a'] = S.conn(B2, S.IP_A, "bob@openikev2", "alice@openikev2", "testing2", "testing", [S.entry(9)])
+    for below in (3, 2, 1, 0):
+        w = S.new_world(c, {'A': [S.IP_A], 'B': [S.IP_B, B2]})
+        w.sent_log = []
+        req = real_init_request(w)
+        n0 = max(0, measured - below)
+        for i in range(n0):
+            w.step(('inject', 'B', variant(req, spi=struct.pack('>Q', 0x1000 + i)), S.IP_A, S.IP_B))
+            w.net[:] = []
+        half = sum(1 for x in w.endpoints['B'].controller.ike_sas if int(x.state) < int(State.ESTABLISHED))
+        if half != n0:
+            yield ('same-pass:fill', [('same-pass:precondition', 'could not create %d half-open IKE_SAs (have %d)' % (n0, half))], None)
+            return
+        items = [('udp', variant(req, spi=struct.pack('>Q', 0x2000 + k)), S.IP_A, dst) for k, dst in enumerate((S.IP_B, B2, S.IP_B))]
+        for m in (2, 3):
+            w2 = w.fork()
+            w2.step(('together', 'B', items[:m] if m == 2 else [items[0], items[1]]))
+            if m == 3:
+                w2.step(('together', 'B', [items[2]]))
+            replies = []
+            for d in w2.net:
+                if d.sender == 'B':
+                    w2.step_emitted = [d]
+                    replies.append(classify_reply(w2)[0])
+            full = replies.count('normal')
+            room = max(0, measured - n0)
+            v = []
+            if len(replies) != m:
+                v.append(('same-pass:replies', '%d requests read in one pass (and after it), %d replies' % (m, len(replies))))
+            elif full > room:
+                v.append(('same-pass:more-than-the-load-allows', 'with %d half-open IKE_SAs (cookies start at %d) %d requests were read '
+                          '%s: %d of them were answered in full, the load leaves room for %d (replies: %s)' % (
+                              n0, measured, m, 'in one pass' if m == 2 else 'in one pass, and one more in the next', full, room, replies)))
+            yield ('same-pass:%d-below:%d-requests' % (below, m), v, '+'.join(replies))
+
+
 def replay(path):
     doc = jdec(json.load(open(path)))
     want = doc['label']
@@ -544,6 +608,8 @@ def main():
         if len(set(meas.values())) > 1:
             runs.append(('v%d:threshold-across-histories' % fam, [('threshold-depends-on-history', 'half-open IKE_SAs needed before a '
                                                                    'cookie is demanded: %s' % sorted(meas.items()))], 'differs'))
+        if fam == 4 and meas:
+            runs += [('v4:%s' % l, v, o) for l, v, o in same_pass_cases(min(meas.values()))]
         runs += [('v%d:%s' % (fam, l), v, o) for l, v, o in initiator_cases()]
         runs += [('v%d:%s' % (fam, l), v, o) for l, v, o in foreign_responder_cases()]
     FAMILY['v'] = 4
